@@ -386,6 +386,12 @@ Theorem fa_depends_on_designated_samples_only : forall (F : Type) (Fo : FieldOps
 Proof. exact (@fa_des_ext_proof). Qed.
 Print Assumptions fa_depends_on_designated_samples_only.
 
+Example fa_depends_on_designated_samples_only_nonvacuous :
+  length [2; 3] = length [0; 1] /\
+  forall i t, i < length [2; 3] -> t < 1 ->
+    w_feat (at_pos [2; 3] i) t = (fun id _ => qz (Z.of_nat (id + 2))) (at_pos [0; 1] i) t.
+Proof. exact rp_depends_on_designated_samples_only_nonvacuous. Qed.
+
 Theorem fa_range_translation_invariant : forall (F : Type) (Fo : FieldOps F) (Ff : IsField F)
     (inv : nat -> mat F -> mat F) (logdet : nat -> mat F -> F) (stop : F -> F -> bool)
     T D d (eps : F) (A0 : mat F) (t : vec F) (feat : nat -> vec F) range,
@@ -481,6 +487,22 @@ Theorem spe_run_depends_on_designated_distances_global :
 Proof. exact (@spe_run_des_ext_global_proof). Qed.
 Print Assumptions spe_run_depends_on_designated_distances_global.
 
+Example spe_run_depends_on_designated_distances_global_nonvacuous :
+  let range := [10; 11; 12; 13; 14; 15] in
+  let range' := [0; 1; 2; 3; 4; 5] in
+  let dist := fun a b : nat => qz (Z.of_nat (a + b)) in
+  let dist' := fun a b : nat => qz (Z.of_nat (a + 10 + (b + 10))) in
+  length range = length range' /\
+  (forall a b, a < length range -> b < length range ->
+               dist (at_pos range a) (at_pos range b) = dist' (at_pos range' a) (at_pos range' b)) /\
+  Forall (fun i => is_perm (length range) (it_from i)) w_its.
+Proof.
+  cbv zeta. split; [reflexivity|]. split.
+  - intros a b Ha Hb. cbn [length] in Ha, Hb.
+    do 6 (destruct a as [|a]; [do 6 (destruct b as [|b]; [reflexivity|]); lia|]). lia.
+  - exact (Forall_impl _ (fun i H => proj1 H) w_its_ok).
+Qed.
+
 Theorem spe_run_depends_on_designated_distances_local :
   forall (F : Type) (Fo : FieldOps F)
     nbrs nupd range range' its (norms : list (list F)) (tol alpha : F)
@@ -522,9 +544,22 @@ Theorem polar_first_point_in_disc_is_returned : forall M fuel r1 r2 rest,
 Proof. exact polar_loop_first_proof. Qed.
 Print Assumptions polar_first_point_in_disc_is_returned.
 
+Example polar_first_point_in_disc_is_returned_nonvacuous :
+  ((0 < polar_coord 8 3 * polar_coord 8 3 + polar_coord 8 5 * polar_coord 8 5)%Q /\
+   (polar_coord 8 3 * polar_coord 8 3 + polar_coord 8 5 * polar_coord 8 5 < 1)%Q) /\
+  ~ ((0 < polar_coord 8 7 * polar_coord 8 7 + polar_coord 8 7 * polar_coord 8 7)%Q /\
+     (polar_coord 8 7 * polar_coord 8 7 + polar_coord 8 7 * polar_coord 8 7 < 1)%Q).
+Proof.
+  split; [split; vm_compute; reflexivity|]. intros [_ H]. vm_compute in H. discriminate.
+Qed.
+
 Theorem polar_matrix_one_accepted_attempt_per_entry : forall fuel M count rs l rest,
   polar_fill fuel M count rs = Ok (l, rest) ->
   length l = count /\
   Forall (fun xs => (0 < snd xs)%Q /\ (snd xs < 1)%Q /\ (fst xs * fst xs <= snd xs)%Q) l.
 Proof. exact polar_fill_count_proof. Qed.
 Print Assumptions polar_matrix_one_accepted_attempt_per_entry.
+
+Example polar_matrix_one_accepted_attempt_per_entry_nonvacuous :
+  exists l rest, polar_fill 6 8 2 [7; 7; 3; 5; 4; 5; 1]%Z = Ok (l, rest) /\ rest = [1%Z].
+Proof. eexists. eexists. split; vm_compute; reflexivity. Qed.
